@@ -355,7 +355,7 @@ impl Property for C14 {
         ]
     }
     fn workloads(&self, tier: Tier) -> Vec<(String, u64)> {
-        vec![("mutant".into(), tier.pick(5000, 300_000)), ("editor".into(), tier.pick(250, 10_000)), ("special".into(), tier.pick(120, 3000)), ("sane-generated".into(), tier.pick(300, 10_000))]
+        vec![("mutant".into(), tier.pick(15_000, 300_000)), ("editor".into(), tier.pick(750, 10_000)), ("special".into(), tier.pick(360, 3000)), ("sane-generated".into(), tier.pick(900, 10_000))]
     }
     fn required(&self, _tier: Tier) -> Vec<(String, u64)> {
         vec![
